@@ -325,6 +325,7 @@ def run_coq_bools(pid: str, imports: list[str], exprs: list[str], prelude: str =
         chunk = exprs[ci : ci + CASE_CHUNK]
         p = d / f"{pid}_{ci // CASE_CHUNK:04d}.v"
         with open(p, "w") as fh:
+            fh.write("From SE Require Import Base.Num Base.Res.\n")
             for imp in imports:
                 fh.write(f"From SE Require Import {imp}.\n")
             fh.write("From Coq Require Import String.\nOpen Scope Q_scope.\n")
@@ -364,6 +365,7 @@ def coq_eval(pid: str, imports: list[str], exprs: list[str], prelude: str = "") 
     d.mkdir(parents=True, exist_ok=True)
     p = d / f"{pid}_show.v"
     with open(p, "w") as fh:
+        fh.write("From SE Require Import Base.Num Base.Res.\n")
         for imp in imports:
             fh.write(f"From SE Require Import {imp}.\n")
         fh.write("From Coq Require Import String.\nOpen Scope Q_scope.\n" + prelude + "\n")
